@@ -17,8 +17,16 @@ from concurrent.futures import ThreadPoolExecutor
 VERIF = os.path.dirname(os.path.dirname(os.path.abspath(__file__)))
 REPO = os.environ.get('VERIF_REPO', '/repo')
 COQ = os.path.join(VERIF, 'coq')
-BUILD = os.path.join(VERIF, '_build')
-EVID = os.path.join(VERIF, 'evidence')
+LOCKDIR = os.path.join(VERIF, '_build')          # file locks (shared by every run)
+ALT = os.path.realpath(REPO) != '/repo'          # a trial against a scratch worktree (tools/try_seed.py)
+if ALT:     # trials never touch the evidence, scratch or regenerated files of the real check
+    BUILD = os.path.join(LOCKDIR, 'alt', re.sub(r'\W+', '_', os.path.realpath(REPO)).strip('_'))
+    EVID = os.path.join(BUILD, 'evidence')
+    GEN = os.path.join(BUILD, 'gen')
+else:
+    BUILD = LOCKDIR
+    EVID = os.path.join(VERIF, 'evidence')
+    GEN = os.path.join(COQ, 'gen')
 NPROC = int(os.environ.get('VERIF_JOBS', '16'))
 COQFLAGS = ['-R', os.path.join(COQ, 'theories'), 'PM']
 
@@ -129,7 +137,7 @@ def make_library(timeout=3000, prop=None):
     No-op when up to date. Serialised by a file lock: several checks may run at once."""
     import fcntl
     os.makedirs(BUILD, exist_ok=True)
-    with open(os.path.join(BUILD, '.coq.lock'), 'w') as lk:
+    with open(os.path.join(LOCKDIR, '.coq.lock'), 'w') as lk:
         fcntl.flock(lk, fcntl.LOCK_EX)
         subprocess.run([sys.executable, os.path.join(VERIF, 'tools', 'gen_coqproject.py')],
                        check=True, stdout=subprocess.DEVNULL)
